@@ -27,7 +27,7 @@ def eval_char_pred(body, ch):
     return _eval_char_pred(body, ch, 2 if body.is_closure else 1)
 
 
-def _eval_char_pred(body, ch, pidx):
+def _eval_char_pred(body, ch, pidx, depth=0):
     """abstractly evaluate a pure predicate body on the character value `ch` (finite partition of
     the input domain; only comparisons / boolean ops / switches are understood).  None = not a
     shape this evaluator reads (fail closed)."""
@@ -78,6 +78,21 @@ def _eval_char_pred(body, ch, pidx):
             bb = nxt
         elif t['k'] == 'return':
             return env.get(0)
+        elif t['k'] == 'call' and depth < 4 and t.get('target') is not None and not t['dest']['p']:
+            # a nested local character predicate: `is_word_boundary(c) = is_blank(c) || is_delim(c) || c == '"'`
+            c = Call(body, bb, t)
+            prog = getattr(body.facts, '_prog', None)
+            g = prog.by_id.get(c.ruid) if prog is not None and c.ruid else None
+            if g is None or len(c.args) != 1 or g.arg_count != 1 or g.locals[1]['ty'] != 'char' or g.locals[0]['ty'] != 'bool':
+                return None
+            a = _val(env, c.args[0])
+            if a is None:
+                return None
+            r = _eval_char_pred(g, a, 1, depth + 1)
+            if r is None:
+                return None
+            env[t['dest']['l']] = int(bool(r))
+            bb = t['target']
         else:
             return None
     return None
@@ -86,6 +101,16 @@ def _eval_char_pred(body, ch, pidx):
 def char_set(body):
     """set of chars accepted by a char predicate, over a finite partition (None = unreadable)"""
     consts = set()
+    prog = getattr(body.facts, '_prog', None)
+    nested = []
+    for c in body.live_calls:
+        g = prog.by_id.get(c.ruid) if prog is not None and c.ruid else None
+        if g is not None and g is not body and g.arg_count == 1 and g.locals[1]['ty'] == 'char' and g.locals[0]['ty'] == 'bool':
+            nested.append(g)
+    for g in nested:
+        a, cd = char_set(g)
+        if cd:
+            consts |= cd
     for b in range(body.n):
         for st in body.blocks[b]['stmts']:
             if st['k'] == 'assign' and st['rv']['k'] == 'binop':
@@ -578,6 +603,133 @@ def rule_charunits(roles):
                 obs.append(assumed('CHARUNITS', key, '%s on the character iterator: the count (%s) is not recognisably a byte quantity' % (c.callee.split('::')[-1], '; '.join(unknown)[:200]), c.where()))
             else:
                 obs.append(ok('CHARUNITS', key, '%s on the character iterator is given a constant / a character count' % c.callee.split('::')[-1], c.where()))
+    # counted loops: `for _ in a..b { advance one character }` steps (b - a) characters
+    import r_term
+    tm = r_term.TermModel(prog, roles)
+    for b in roles.token_bodies():
+        for scc in b.sccs():
+            advs = [c for c in b.live_calls if c.bb in scc and ((c.rdef or '') == r_term.CHAR_NEXT or c.ruid in tm.char_adv)
+                    and c.term['arg_tys'] and c.term['arg_tys'][0].startswith('&mut ')]
+            rnext = [c for c in b.live_calls if c.bb in scc and re.search(r'std::ops::Range(Inclusive)?<\w+> as std::iter::Iterator>::next$', c.callee and (c.fn or {}).get('path', '') or '')]
+            if not advs or not rnext:
+                continue
+            it = single_origin(trace_operand(b, rnext[0].args[0], through_calls={'std::iter::IntoIterator::into_iter'}))
+            if it is None or it.kind != 'agg' or it.data[2].get('adt', '').split('<')[0] not in ('std::ops::Range', 'std::ops::RangeInclusive'):
+                continue
+            n += 1
+            key = 'CHARUNITS|%s|counted-loop|#%d' % (b.name, len([o for o in obs if o.key.startswith('CHARUNITS|%s|counted' % b.name)]))
+            byte = []
+            for x in it.data[2]['ops'][:2]:
+                for o in trace_operand(b, x, through_calls=set()):
+                    if o.kind == 'callres' and (BYTE_VALUED.match(o.data.callee or '') or BYTE_VALUED.match(o.data.rdef or '')):
+                        byte.append(o.data.rdef or o.data.callee)
+            if byte:
+                obs.append(bad('CHARUNITS', key, 'a loop counted by a byte quantity (%s) advances the character iterator once per count: on multi-byte text it steps too far and the characters after it are silently dropped' % ', '.join(sorted(set(byte))),
+                               advs[0].where(), body=b.name, bb=advs[0].bb))
+            else:
+                obs.append(ok('CHARUNITS', key, 'counted loop over the character iterator: the count is not a byte quantity', advs[0].where()))
     if n == 0:
-        obs.append(ok('CHARUNITS', 'CHARUNITS|none', 'the character iterators are only stepped one item at a time (no nth / skip / advance_by / take)'))
+        obs.append(ok('CHARUNITS', 'CHARUNITS|none', 'the character iterators are only stepped one item at a time (no nth / skip / advance_by / take, no counted loop)'))
+    return obs
+
+
+# ----------------------------------------------------------------------------- WORDSCAN
+PRED_TAKERS = re.compile(r'^core::str::<impl str>::(find|rfind|split|trim_start_matches|trim_end_matches|trim_matches|starts_with|contains|matches|char_indices)$|'
+                         r'^std::iter::Iterator::(position|take_while|skip_while|find|any|all)$')
+
+
+def _char_preds_of(prog, g):
+    """char predicates a scanner consults: local (char) -> bool bodies it calls, or hands to str::find / position / .."""
+    out = []
+    for c in g.live_calls:
+        if c.ruid is not None and c.ruid in prog.by_id:
+            p = prog.by_id[c.ruid]
+            if p.locals[0]['ty'] == 'bool' and p.arg_count == 1 and p.locals[1]['ty'] == 'char':
+                out.append(p)
+        if PRED_TAKERS.match(c.callee or ''):
+            for a in c.args[1:]:
+                o = single_origin(trace_operand(g, a, through_calls=set()))
+                q = None
+                if o is not None and o.kind == 'const' and isinstance(o.data, dict) and o.data.get('fn') and o.data['fn'].get('local'):
+                    q = prog.by_id.get(o.data['fn']['uid'])
+                elif o is not None and o.kind == 'agg' and o.data[2].get('agg') == 'closure':
+                    q = prog.by_id.get(o.data[2]['closure'])
+                if q is not None:
+                    out.append(q)
+    return out
+
+
+def _inline_char_consts(g):
+    """characters a scanner body compares the scanned character with directly (`ch == '"'`, `match ch { '(' => ..`)"""
+    out = set()
+    for bb, i, pl, rv in g.assigns():
+        if rv['k'] == 'binop' and rv['op'] in ('Eq', 'Ne'):
+            for o in (rv['a'], rv['b']):
+                if o['k'] == 'const' and o.get('ty') == 'char' and 'int' in o:
+                    out.add(o['int'])
+    for b in sorted(g.live_blocks):
+        t = g.blocks[b]['term']
+        if t['k'] == 'switch' and t.get('dty') == 'char':
+            out |= {v for v, _ in t['targets']}
+    return out
+
+
+def _accept_set(preds, cand):
+    acc = set()
+    for p in preds:
+        for ch in cand:
+            r = eval_char_pred(p, ch)
+            if r is None:
+                return None
+            if r:
+                acc.add(ch)
+    return acc
+
+
+def rule_wordscan(roles, rm):
+    """a word operator is recognised by a look-ahead that tests a slice of the input against the operator registry,
+    and is then consumed by a scanner that cuts the token text: both must stop at the same characters, otherwise
+    the token text is not the text that was found registered (`x in'abc'` -> Operator("in'abc'"))"""
+    prog = roles.prog
+    deciders, consumers = [], []
+    for g in roles.token_bodies():
+        if g.is_closure or g.arg_count < 1 or not roles.tok_name or roles.tok_name not in g.locals[1]['ty']:
+            continue
+        preds = _char_preds_of(prog, g)
+        if not preds:
+            continue
+        reads_registry = [c for c in g.live_calls if c.ruid in rm.reach_reg_lock and any('str' in t for t in c.term['arg_tys'])]
+        builds_op = [1 for bb, i, pl, rv in g.assigns() if rv['k'] == 'agg' and rv.get('adt') == roles.token_adt and rv.get('variant') == 'Operator']
+        if g.locals[0]['ty'] == 'bool' and reads_registry and not g.sccs() or (g.locals[0]['ty'] == 'bool' and reads_registry and not builds_op):
+            deciders.append((g, preds))
+        elif builds_op and not reads_registry:
+            consumers.append((g, preds))
+    obs = []
+    if not deciders or not consumers:
+        return [assumed('WORDSCAN', 'WORDSCAN|shape', 'no separate look-ahead / consumer pair for word operators in this shape (%d / %d): nothing to compare' % (len(deciders), len(consumers)))]
+    for d, dp in deciders:
+        for c, cp in consumers:
+            key = 'WORDSCAN|%s|%s' % (d.name, c.name)
+            cand = set()
+            unread = False
+            for p in dp + cp:
+                a, cd = char_set(p)
+                if cd is None:
+                    unread = True
+                    break
+                cand |= cd
+            icd, icc = _inline_char_consts(d), _inline_char_consts(c)
+            cand |= icd | icc
+            sd = _accept_set(dp, cand) if not unread else None
+            sc = _accept_set(cp, cand) if not unread else None
+            if sd is not None and sc is not None:
+                sd, sc = sd | icd, sc | icc
+            if sd is None or sc is None:
+                obs.append(assumed('WORDSCAN', key, 'the stop predicates of the look-ahead / the consumer are not plain character tests: not compared', d.where()))
+            elif sd == sc or sd == (cand - sc):
+                obs.append(ok('WORDSCAN', key, 'the look-ahead that asks the registry and the scanner that cuts the operator text stop at the same characters (%d in the tested partition)' % len(sd), d.where()))
+            else:
+                diff = sorted((sd ^ sc))[:6]
+                obs.append(bad('WORDSCAN', key, 'the look-ahead that decides "this word is a registered operator" and the scanner that cuts the operator token stop at different characters (%s): the token text is then not the text that was found registered' % ', '.join(repr(chr(x)) for x in diff),
+                               d.where(), body=d.name))
     return obs
